@@ -2,6 +2,8 @@ package an
 
 import (
 	"fmt"
+	"go/constant"
+	"go/token"
 	"go/types"
 	"regexp"
 	"sort"
@@ -36,7 +38,7 @@ func runC16(w *World) *Result {
 	r.Rule("R-C16-balance", "bracket protocol units are balanced with matching closers; other methods are neutral", 40)
 	r.Rule("R-C16-labels", "Batch: every goto/call reference has a definition template; definitions unique per construct", 12)
 	r.Rule("R-C16-helpers", "helper routines: invocation implies flag set; (Batch) flag set implies an invocation is emitted", 10)
-	r.Rule("R-C16-nop", "the no-op emits one command line in both back ends", 2)
+	r.Rule("R-C16-nop", "the no-op emits one command line in both back ends; only expressions whose handler always emits a line may stand as a statement", 6)
 	r.Rule("R-C16-jumps", "Batch loop/branch jumps use the labels their opener pushed (never a label recomputed from a moving counter)", 6)
 	r.Rule("R-C16-driver", "the driver calls the bracket methods of if / for / func / program in matched order on every success path (an opener or header skipped leaves a closer without its opening line)", 5)
 	ProtoRule(w, r, "R-C16-driver", func(n string) bool {
@@ -49,12 +51,15 @@ func runC16(w *World) *Result {
 	r.Rule("R-C16-defined", "every function a script can call is defined in it: call edges are recorded at the construction of call nodes, merged completely across imports, and removal follows their closure", 5)
 	c09Edge(w, r, "R-C16-defined")
 	c09Merge(w, r, "R-C16-defined")
+	backends := map[string]*Backend{}
+	defer func() { c16StatementsEmit(w, r, backends) }()
 	for _, role := range []string{"bash", "batch"} {
 		b, err := BuildBackend(w, role)
 		if err != nil {
 			r.Bad("R-C16-line", "extract:"+role, "-", err.Error())
 			continue
 		}
+		backends[role] = b
 		r.Analysed[role+"_line_variants"] = len(b.Lines)
 		for _, u := range b.Undecided {
 			r.Bad("R-C16-line", "undecided:"+role, "-", u)
@@ -925,4 +930,178 @@ func labelRefText(t Tmpl) []string {
 		}
 	}
 	return out
+}
+
+// c16StatementsEmit: a block is opened and closed with keyword lines, so every statement
+// the parser admits must put at least one line between them. Statement nodes proper
+// (if, for, print, assignments …) call a converter method that emits; an expression used
+// as a statement emits only if it is a call-like node, so (a) the parser must restrict
+// expression statements to an explicit list of node tags and (b) the driver's handler
+// of every listed kind must reach, on every success path with an unused result, a
+// converter method that emits a line unconditionally in both back ends.
+func c16StatementsEmit(w *World, r *Result, backends map[string]*Backend) {
+	rule := "R-C16-nop"
+	ppkg := w.Pkgs["parser"].Types
+	var stmtFn *ssa.Function
+	var tags []string
+	for _, fn := range w.Funcs("parser") {
+		for _, b := range fn.Blocks {
+			for _, ins := range b.Instrs {
+				// stmt.StatementType() on the result of an expression parser, compared with tag constants
+				c, ok := ins.(*ssa.Call)
+				if !ok || !c.Call.IsInvoke() || c.Call.Method.Name() != "StatementType" {
+					continue
+				}
+				fromExpr := false
+				var back func(v ssa.Value, d int)
+				back = func(v ssa.Value, d int) {
+					if d > 5 {
+						return
+					}
+					switch x := v.(type) {
+					case *ssa.Extract:
+						if call, ok := x.Tuple.(*ssa.Call); ok {
+							if callee := call.Call.StaticCallee(); callee != nil && pkgOf(callee) == ppkg && callee.Signature.Results().Len() > 0 && isNamed(callee.Signature.Results().At(0).Type(), "Expression") {
+								fromExpr = true
+							}
+						}
+					case *ssa.Phi:
+						for _, e := range x.Edges {
+							back(e, d+1)
+						}
+					case *ssa.ChangeInterface:
+						back(x.X, d+1)
+					case *ssa.MakeInterface:
+						back(x.X, d+1)
+					}
+				}
+				back(c.Call.Value, 0)
+				if !fromExpr || c.Referrers() == nil {
+					continue
+				}
+				for _, ref := range *c.Referrers() {
+					bo, ok := ref.(*ssa.BinOp)
+					if !ok || bo.Op != token.EQL {
+						continue
+					}
+					k, ok := bo.Y.(*ssa.Const)
+					if !ok || k.Value == nil || k.Value.Kind() != constant.String || !isNamed(k.Type(), "StatementType") {
+						continue
+					}
+					for _, ref2 := range *bo.Referrers() {
+						ifi, ok := ref2.(*ssa.If)
+						if !ok {
+							continue
+						}
+						tags = append(tags, constant.StringVal(k.Value))
+						// the arm taken when no listed tag matches constructs an error
+						other := ifi.Block().Succs[1]
+						for _, oi := range other.Instrs {
+							if oc, ok := oi.(*ssa.Call); ok && isErrorType(oc.Type()) {
+								stmtFn = fn
+							}
+						}
+					}
+				}
+			}
+		}
+	}
+	if stmtFn == nil || len(tags) == 0 {
+		r.Bad(rule, "nop:expression-statements", "-", "the parser does not restrict which expressions may stand as a statement: a variable, a literal or an operation alone emits no line, and as the only statement of a block it leaves \"then fi\" / an empty ( ) block")
+		return
+	}
+	tagOf, _ := TagMap(w)
+	nodeOfTag := map[string]string{}
+	for node, tag := range tagOf {
+		nodeOfTag[tag] = node
+	}
+	df, err := BuildDriverFacts(w)
+	if err != nil {
+		r.Bad(rule, "nop:driver", "-", err.Error())
+		return
+	}
+	alwaysEmits := func(m string) (bool, string) {
+		for _, role := range []string{"bash", "batch"} {
+			b := backends[role]
+			if b == nil {
+				return false, "back end " + role + " not analysed"
+			}
+			mf := b.X.Methods[m]
+			if mf == nil {
+				return false, role + " has no method " + m
+			}
+			ok := false
+			for _, em := range mf.Emissions {
+				if em.Helper != "" || em.InLoop {
+					continue
+				}
+				uncond := true
+				for _, c := range em.Conds {
+					if strings.HasPrefix(c, "!(") && strings.HasSuffix(c, ".valueUsed)") {
+						continue // taken when the result is not used
+					}
+					uncond = false
+				}
+				if uncond {
+					ok = true
+				}
+			}
+			if !ok {
+				return false, m + " emits no unconditional line in the " + role + " back end"
+			}
+		}
+		return true, ""
+	}
+	sort.Strings(tags)
+	for _, tag := range uniq(tags) {
+		node := nodeOfTag[tag]
+		key := "nop:statement:" + node
+		if node == "" {
+			r.Bad(rule, "nop:statement:tag:"+tag, w.Pos(stmtFn.Pos()), "statement tag "+tag+" admitted as an expression statement has no node type")
+			continue
+		}
+		var d *DriverFn
+		for _, x := range df.Fns {
+			if x.Node == node {
+				if _, isRec := df.rec[x.Fn]; !isRec {
+					d = x
+				}
+			}
+		}
+		if d == nil {
+			r.Bad(rule, key, w.Pos(stmtFn.Pos()), "no driver handler found for "+node)
+			continue
+		}
+		bad := ""
+		for _, t := range d.CondTraces {
+			used := false
+			emits := false
+			why := ""
+			for _, e := range t {
+				if strings.HasPrefix(e, "?") && strings.HasSuffix(e, "sed=true") {
+					used = true
+				}
+				if strings.HasPrefix(e, "stmt(") || strings.HasPrefix(e, "block(") {
+					emits = true
+				}
+				if strings.HasPrefix(e, "conv(") {
+					m := strings.TrimSuffix(strings.TrimPrefix(e, "conv("), ")")
+					if ok, w2 := alwaysEmits(m); ok {
+						emits = true
+					} else {
+						why = w2
+					}
+				}
+			}
+			if used || emits {
+				continue
+			}
+			bad = fmt.Sprintf("success path [%s] of %s emits no line when the result is not used (%s)", strings.Join(t, " "), d.Fn.Name(), why)
+		}
+		if bad != "" {
+			r.Bad(rule, key, w.Pos(d.Fn.Pos()), node+" may stand as a statement, but "+bad+": as the only statement of a block it leaves the block empty (syntax error in both shells)")
+		} else {
+			r.Ok(rule, key, w.Pos(d.Fn.Pos()), node+" may stand as a statement and every success path of its handler with an unused result reaches a converter method that emits a line in both back ends")
+		}
+	}
 }
